@@ -34,6 +34,41 @@ class C03(Spec):
             "non-trivial = at least one notification delivered and one unsubscribe; distinct by trace hash. SEQUENTIAL: one command at a time (lock-level interleavings: schedule stage)")
     assumptions = ["one command at a time on the node; the interleaving of two commands' lock regions is not explored by this check"]
 
+    def extra_stage(self, tier, seed):
+        """lock-level interleavings: a subscription survives other clients' watch / unwatch, a committed write reaches every subscriber once,
+        and the highest-versioned notification a subscriber holds is the current value"""
+        from vlib import sched
+        base = SETUP + ["SESS 5", "C 5 use-db t tok", "C 1 set a 0", "C 1 set b 0"]
+        tail = ["C 1 set a fin", "C 1 set b finb", "C 1 get-safe a"]
+        w45 = base + ["C 4 watch a", "C 5 watch a"]
+        P = [("watch-vs-other-unwatch", base + ["C 5 watch a"], (4, "watch a"), (5, "unwatch a"), tail),
+             ("unwatch-vs-other-unwatch", w45, (4, "unwatch a"), (5, "unwatch a"), tail),
+             ("unwatch-all-vs-other-watch", base + ["C 4 watch a", "C 4 watch b"], (4, "unwatch-all"), (5, "watch a"), tail),
+             ("watch-vs-watch-same-key", base, (4, "watch a"), (5, "watch a"), tail),
+             ("watch-vs-watch-other-key", base, (4, "watch a"), (5, "watch b"), tail),
+             ("write-vs-unwatch", w45, (1, "set a X"), (4, "unwatch a"), tail),
+             ("write-vs-watch", base + ["C 5 watch a"], (1, "set a X"), (4, "watch a"), tail),
+             ("write-vs-write", w45, (1, "set a A"), (2, "set a B"), ["C 1 get-safe a"]),
+             ("cas-vs-cas", w45, (1, "set-safe a 1 A"), (2, "set-safe a 1 B"), ["C 1 get-safe a"]),
+             ("write-vs-remove", w45, (1, "set a A"), (2, "remove a"), ["C 1 get-safe a"]),
+             ("increment-vs-increment", w45, (1, "increment a"), (2, "increment a 10"), ["C 1 get-safe a"])]
+        def highest(name, o, sch, trace):
+            """once writes stop, the highest-versioned changed-version line a subscriber holds for `a` carries the stored value"""
+            fs = []
+            state = {m.group(1): (int(m.group(2)), m.group(3)) for d in o[4] for m in [re.match(r"D k t (\S+) ver=(-?\d+) st=[^D] .* v=(.*)", d)] if m}
+            still = {int(x) for d in o[4] for m in [re.match(r"D w t a (.*)", d)] if m for x in m.group(1).split(",") if x.isdigit()}
+            for sid, lines in o[2]:
+                if sid not in still: continue        # the rule speaks of a subscriber, i.e. while it is subscribed
+                best = None
+                for l in lines:
+                    t = core.unesc(l).decode("utf-8", "replace").rstrip("\n").split(" ", 3)
+                    if t[0] == "changed-version" and t[1] == "a" and len(t) == 4 and int(t[2]) >= 0:
+                        if best is None or int(t[2]) >= best[0]: best = (int(t[2]), t[3])
+                if best and "a" in state and not name.startswith("increment") and "remove" not in name and state["a"][1] != core.esc(best[1].encode()):
+                    fs.append(Failure(f"highest-versioned-notification-is-not-current:{name}", f"schedule {sch}: subscriber {sid} holds v{best[0]} {best[1]!r}, stored {state['a']}"))
+            return fs
+        return sched.stage("C03", P, tier, seed, parts=("pushes-multiset", "later-replies", "state"), extra_oracle=highest)
+
     def corpus(self):
         return [("double-watch", SETUP + ["C 3 watch a", "C 3 watch a", "C 1 set a x", "C 3 unwatch a", "C 1 set a y"])]
 
